@@ -4,6 +4,7 @@ import (
 	"errors"
 	"fmt"
 	"io"
+	"io/fs"
 	"net/http"
 	"net/url"
 	"path"
@@ -73,14 +74,7 @@ func Canon(u *url.URL) string {
 		if u.User != nil {
 			user = u.User.String() + "@" // credentials are part of what is asked for: another user's view is another resource
 		}
-		// (RFC 3986 6.2.3: host case and the scheme's default port do not make another resource)
-		host := strings.ToLower(u.Host)
-		if u.Scheme == "http" {
-			host = strings.TrimSuffix(host, ":80")
-		} else {
-			host = strings.TrimSuffix(host, ":443")
-		}
-		return u.Scheme + "://" + user + host + path.Clean(p)
+		return u.Scheme + "://" + user + foldHost(u.Scheme, u.Host) + path.Clean(p)
 	default:
 		c := *u
 		c.Fragment = ""
@@ -97,6 +91,16 @@ func (s *Storage) faultFor(loc string) *ReadFault {
 		}
 	}
 	return nil
+}
+
+// foldHost: host case and the scheme's default port do not make another
+// resource (RFC 3986 6.2.3).
+func foldHost(scheme, host string) string {
+	host = strings.ToLower(host)
+	if scheme == "http" {
+		return strings.TrimSuffix(host, ":80")
+	}
+	return strings.TrimSuffix(host, ":443")
 }
 
 // Partial is the part of content a partial delivery hands over under fault f
@@ -151,7 +155,7 @@ func (s *Storage) read(loc, via string) (data []byte, err error, fault string) {
 		switch f.Kind {
 		case "enoent":
 			s.Fired["enoent"]++
-			return nil, fmt.Errorf("open %s: no such file or directory", loc), "enoent"
+			return nil, &fs.PathError{Op: "open", Path: loc, Err: fs.ErrNotExist}, "enoent"
 		case "eio":
 			s.Fired["eio"]++
 			return nil, fmt.Errorf("read %s: input/output error", loc), "eio"
@@ -166,6 +170,14 @@ func (s *Storage) read(loc, via string) (data []byte, err error, fault string) {
 			if via == "http" {
 				s.Fired["http5xx"]++
 				return nil, errHTTP5xx, "http5xx"
+			}
+			s.Fired["eio"]++
+			return nil, fmt.Errorf("read %s: input/output error", loc), "eio"
+		case "unsupported":
+			// a custom reader that declines the location (openapi3.ErrURINotSupported is what it returns)
+			if via == "func" {
+				s.Fired["unsupported"]++
+				return nil, ErrUnsupported, "unsupported"
 			}
 			s.Fired["eio"]++
 			return nil, fmt.Errorf("read %s: input/output error", loc), "eio"
@@ -199,7 +211,7 @@ func (s *Storage) read(loc, via string) (data []byte, err error, fault string) {
 		}
 	}
 	if !ok {
-		return nil, fmt.Errorf("open %s: no such file or directory", loc), ""
+		return nil, &fs.PathError{Op: "open", Path: loc, Err: fs.ErrNotExist}, ""
 	}
 	return append([]byte{}, content...), nil, fault
 }
@@ -208,6 +220,8 @@ var (
 	errHTTP5xx   = errors.New("http 503")
 	errHTTPReset = errors.New("connection reset by peer")
 	errHTTPShort = io.ErrUnexpectedEOF
+	// ErrUnsupported is replaced by the harness with the library's own sentinel (openapi3.ErrURINotSupported)
+	ErrUnsupported = errors.New("unsupported URI")
 )
 
 // ReadURL serves a custom ReadFromURIFunc.
@@ -238,7 +252,7 @@ func (s *Storage) RoundTrip(req *http.Request) (*http.Response, error) {
 		u = &c
 	}
 	loc := Canon(u)
-	if _, known := s.hosts()[req.URL.Host]; !known {
+	if _, known := s.hosts()[foldHost(req.URL.Scheme, req.URL.Host)]; !known {
 		s.mu.Lock()
 		defer s.mu.Unlock()
 		s.Count[loc]++
